@@ -70,8 +70,10 @@ def values_for(d, rnd, k):
     """k values biased to the interesting ones of configuration d"""
     pool = list(pv.ATOMS)
     kinds = pv.desc_kinds(d)
-    if any(x in ("DPrefixList", "DPrefixMap", "DString") for x in kinds):
+    if any(x in ("DPrefixList", "DPrefixMap") for x in kinds):
         pool = pv.PREFIX_VALUES * 3 + pool
+    if "DString" in kinds:
+        pool = pv.STRING_VALUES * 4 + pool
     if "DTuple" in kinds:
         pool = pv.tuple_values(rnd, 30, 2) + pool
     if "DArray" in kinds:        # arrays only meet Array traits (array == x is element-wise: not modelled elsewhere)
@@ -119,7 +121,7 @@ def configs(rnd, quick):
                 ["DTuple", [["DInt"], ["DStr"]]], ["DTuple", [["DUnion", [["DRangeF", pv.F(0.0), None, 1], ["DStr"]]], ["DBool"]]],
                 ["DTuple", [["DTuple", [["DInt"], ["DCast", "CTFloat"]]], ["DString", 1, 3, 1]]]])
     rand = []
-    for _ in range(60 if quick else 700):
+    for _ in range(45 if quick else 450):
         d = pv.gen_desc(rnd, 3)
         while has_mapped_compound(d):      # F19: only the fixed corpus histories exercise that shape
             d = pv.gen_desc(rnd, 3)
@@ -133,13 +135,15 @@ def gen_cases(ctx, rnd):
     quick = ctx.tier == "quick"
     cases = corpus()
     fixed, rand = configs(rnd, quick)
-    per_fixed, per_rand, maxlen = (5, 4, 4) if quick else (60, 15, 8)
+    per_fixed, per_rand, maxlen = (4, 3, 4) if quick else (40, 12, 8)
     # every fixed configuration meets the key atoms once (None, bool, int, float, NaN, str, tuple, instance, class, ...)
     key_atoms = [["PNone"], ["PBool", True], ["PInt", 1], ["PFloat", pv.F(0.5)], ["PFloat", pv.NAN], pv.S("a"),
                  ["PTuple", [["PInt", 1], ["PInt", 2]]], ["PObj", 100, 1], ["PType", 100], ["PCallable", 1],
                  ["PInt", 10 ** 400], ["PNpInt", 15, 1], ["PIndexObj", ["Raises", "EValueError"]]]
     for d in fixed:
         vals = key_atoms if not pv.has_kind(d, "DArray") else pv.ARRAY_VALUES
+        if d[0] == "DString":          # every String configuration meets every length / regex class
+            vals = pv.STRING_VALUES
         cases.append(dict(traits=[[0, d], [1, ["DInt"]]], ops=[["Attr", [[0, v]]] for v in vals]))
     for d, k in [(d, per_fixed) for d in fixed] + [(d, per_rand) for d in rand]:
         for _ in range(k):
